@@ -87,7 +87,7 @@ func c13Run(ctx *core.Ctx) {
 							calls = append(calls, c13Call{Addr: a, Nil: (idx+k)%5 == 0})
 						}
 						emit(c13Case{Rcpts: rc, Calls: calls, Timing: timing, RetErr: ret, Transfer: transfer, Backend: "lmtp", Reject: []string{"", "", "first", "middle"}[idx%4]})
-						if ctx.Thorough() {
+						if true {
 							for _, t2 := range []string{"before", "after", "interleaved"} {
 								if t2 != timing {
 									emit(c13Case{Rcpts: rc, Calls: calls, Timing: t2, RetErr: ret, Transfer: transfer, Backend: "lmtp"})
